@@ -7,6 +7,7 @@ SPDX-License-Identifier: Apache-2.0
 package introduce
 
 import (
+	"encoding/json"
 	"errors"
 	"fmt"
 
@@ -167,8 +168,14 @@ func getMetaRecipients(md *metaData) []*Recipient {
 	for i, _recipient := range _recipients {
 		recipient, ok := _recipient.(*Recipient)
 		if !ok {
-			// should never happen, otherwise, the protocol logic is broken
-			panic("recipient type is wrong")
+			// metadata reloaded from the store (a repeated request on the thread) holds the recipients as
+			// decoded JSON objects
+			recipient = &Recipient{}
+
+			raw, err := json.Marshal(_recipient)
+			if err != nil || json.Unmarshal(raw, recipient) != nil {
+				return nil
+			}
 		}
 
 		recipients[i] = recipient
